@@ -138,7 +138,11 @@ RulePODInterval(p, i) ==
       okEnd(e) == e = NONE \/ hasTime(e)
       mk(e) == IF e = NONE THEN NONE ELSE MkTime(e.y, e.m, e.d, adj(e), e.M, e.w, NOPOD)
       bothDT == i.f # NONE /\ i.t # NONE /\ isDateTime(mk(i.f)) /\ isDateTime(mk(i.t))
+      amPod == PodAMish(p.p)
+      pmHour(e) == e # NONE /\ e.H # X /\ e.H > 12
   IN IF ~(okEnd(i.f) /\ okEnd(i.t)) THEN FAIL
+     \* repaired (fix 75130fb, C07): a morning part of day is not merged with afternoon clock times (the guard ruleTODPOD has)
+     ELSE IF amPod /\ (pmHour(i.f) \/ pmHour(i.t)) THEN FAIL
      \* repaired (fix a89b919, C02): shifting only the start into the afternoon must not invert a dated interval
      ELSE IF bothDT /\ TsLE(DtOf(mk(i.t)), DtOf(mk(i.f))) THEN FAIL
      ELSE MkInterval(mk(i.f), mk(i.t))
